@@ -217,6 +217,7 @@ def _render(ret: Any, repl) -> Optional[str]:
 @rule("D2", "optimization-mode item templates: every hole has the role the planner computed it for; `=` only at r == 0; conversions placed around the shifts")
 def d2(repo: Repo) -> RuleResult:
     from .fold import by_name, feasible
+    from .normal import show
 
     res = RuleResult("D2", floor=6)
     m = get_model(repo)
@@ -248,6 +249,45 @@ def d2(repo: Repo) -> RuleResult:
                         break
                     repl = by_name({"r": r, "shift": shift, "fi": fi}, {"get_nbits_of_integer": S_})
                     ok, unfolded = feasible(paths, repl)
+                    if unfolded and all("mask" in show(x) for k_u in unfolded for x in k_u[1:] if hasattr(x, "terms")):
+                        # a condition on the mask: the planner's masks for this r are 2^(r+c) - 2^r, c = 1 .. 8 - r;
+                        # every one of them must give the required statement
+                        ok = None
+                        want_m = expected_statements(lang, which, be, tcls, target, r, shift, fi)
+                        good_paths = None
+                        for c_ in range(1, 8 - r + 1):
+                            mval = (1 << (r + c_)) - (1 << r)
+                            repl_m = by_name({"r": r, "shift": shift, "fi": fi, "mask": mval}, {"get_nbits_of_integer": S_})
+                            ok_m, unf_m = feasible(paths, repl_m)
+                            if unf_m:
+                                ok = None
+                                good_paths = None
+                                break
+                            sm_ = sorted({(_render(p.ret, repl) or "{?}") for p in ok_m if p.done == "return"})
+                            if any(match_statement(x_, w_) is not None for x_ in sm_ for w_ in want_m):
+                                good_paths = good_paths or ok_m
+                                ok = ok or ok_m
+                                continue
+                            # leaving the mask out is harmless exactly when it keeps every bit the operand can have:
+                            # a byte shifted right by s has bits [0, 8 - s), shifted left by s (and stored into a byte)
+                            # bits [s, 8); a whole value stored into a byte keeps 8 bits
+                            if which == "encoder":
+                                if be:
+                                    live = 0xFF
+                                else:
+                                    live = (0xFF >> shift) if shift >= 0 else ((0xFF << -shift) & 0xFF)
+                                noop = (mval & live) == live
+                                unmasked_want = [w_.replace(" & {mask}", "") for w_ in want_m]
+                                if noop and any(match_statement(x_, w_) is not None for x_ in sm_ for w_ in unmasked_want):
+                                    ok = ok or ok_m
+                                    continue
+                            ok = ok_m  # reported below
+                            good_paths = None
+                            break
+                        else:
+                            ok = good_paths or ok
+                        unfolded = [] if ok is not None else unfolded
+                        ok = ok or []
                     if unfolded:
                         res.unsure(f"D2: {cls}.{meth}: condition `{unfolded[0]}` does not fold for (r, shift, fi) = ({r}, {shift}, {fi})")
                         reported = True
